@@ -392,7 +392,7 @@ theorem C22_checker_sound (b : Block) (es : List Edge) (h : dagSpecB b es = true
     obtain ⟨x, hx, h3, h4⟩ := h2
     exact hrf x hx (Decidable.not_not.1 h3) h4
   · have := h2 i (List.mem_range.2 hi)
-    exact ⟨reachB_sound _ _ _ this.1, reachB_sound _ _ _ this.2⟩
+    exact ⟨reachFrom_sound (by simpa using this.1), reachFrom_sound (by simpa using this.2)⟩
 
 theorem C22_hyp_checker (b : Block) (h : hypB b = true) : Hyp b := by
   simp only [hypB, Bool.and_eq_true, List.all_eq_true, decide_eq_true_eq] at h
@@ -415,10 +415,12 @@ private def exBlock : Block :=
 
 example : hypB exBlock = true ∧ rfMatchesB exBlock = true := by decide
 
+set_option maxRecDepth 8192 in
 example : ∃ es, buildBlock exBlock = .ok es ∧ dagSpecB exBlock es = true ∧
     (⟨.instr 3, .stop, .await .capture⟩ : Edge) ∈ es ∧ (⟨.instr 4, .stop, .stable⟩ : Edge) ∈ es :=
   ⟨_, rfl, by decide, by decide, by decide⟩
 
+set_option maxRecDepth 8192 in
 /-- the checker rejects a backward edge and a disconnected instruction -/
 example : ∃ es, buildBlock exBlock = .ok es ∧ dagSpecB exBlock (⟨.instr 3, .instr 1, .stable⟩ :: es) = false ∧
     dagSpecB exBlock (es.filter fun e => e.src ≠ .instr 4) = false :=
